@@ -41,7 +41,7 @@ def rule(tier):
 def floors(tier):
     return {"evaluations": 6000, "distinct": 5000,
             "counters": {"corpus_archives": 5000, "roundtrip_identical": 5000, "rechunk_cases": 1500 if tier == "quick" else 15000,
-                         "multi_chunk_streams": 50, "stored_chunks_decoded": 200, "synthetic_archives": 60, "synthetic_incompressible_64k": 20, "payload_over_65535": 5, "synthetic_exact_64k_multiple": 6, "generated_doc_archives": 300,
+                         "multi_chunk_streams": 50, "stored_chunks_decoded": 200, "synthetic_archives": 60, "synthetic_with_patch_messages": 40, "synthetic_incompressible_64k": 20, "payload_over_65535": 5, "synthetic_exact_64k_multiple": 6, "generated_doc_archives": 300,
                          "contract:iwa_encode": 5000, "contract:iwa_decode": 5000}}
 
 
@@ -343,6 +343,49 @@ def synth_exact(total, rng, nseg=1):
     return None
 
 
+def synth_merge(rng, nseg):
+    """Merged segments (ArchiveInfo.should_merge): full messages of different types followed by untyped patch messages, each
+    naming its base by MessageInfo.base_message_index - adjacent or not, in any order.  Decoding and encoding reproduces every
+    patch byte for byte only if the patch is read with the class of the message it names."""
+    from numbers_parser.generated import TSAArchives_pb2 as TSA, TSKArchives_pb2 as TSK, TSTArchives_pb2 as TST
+    from numbers_parser.generated.mapping import NAME_ID_MAP
+    from numbers_parser.generated.TSPArchiveMessages_pb2 import ArchiveInfo
+    from vf.ref import iwa
+    makers = [
+        ("TSA.FunctionBrowserStateArchive", lambda: TSA.FunctionBrowserStateArchive(recent_functions=[rng.randrange(300) for _ in range(rng.randint(1, 4))], current_function=rng.randrange(300)),
+         lambda: TSA.FunctionBrowserStateArchive(recent_functions=[rng.randrange(300)], current_function=rng.randrange(300))),
+        ("TSK.AnnotationAuthorArchive", lambda: TSK.AnnotationAuthorArchive(name="A. N. Other %d" % rng.randrange(100), public_id="id-%d" % rng.randrange(100), is_public_author=False),
+         lambda: TSK.AnnotationAuthorArchive(is_public_author=True)),
+        ("TST.TableDataList", lambda: TST.TableDataList(listType=TST.TableDataList.ListType.STRING, nextListID=rng.randrange(1, 50)),
+         lambda: TST.TableDataList(listType=TST.TableDataList.ListType.STRING, nextListID=rng.randrange(50, 99))),
+    ]
+    segs = []
+    for i in range(nseg):
+        k = rng.randint(1, 3)
+        full = [rng.choice(makers) for _ in range(k)]
+        order = list(range(k)) * rng.randint(1, 2)
+        rng.shuffle(order)
+        ai = ArchiveInfo(identifier=3000 + i, should_merge=True)
+        msgs = []
+        for name, mk, _ in full:
+            m = mk().SerializeToString()
+            mi = ai.message_infos.add()
+            mi.type = NAME_ID_MAP[name]
+            mi.version.extend([1, 0, 5])
+            mi.length = len(m)
+            msgs.append(m)
+        for base in order:
+            m = full[base][2]().SerializeToString()
+            mi = ai.message_infos.add()
+            mi.type = 0
+            mi.version.extend([1, 0, 5])
+            mi.length = len(m)
+            mi.base_message_index = base
+            msgs.append(m)
+        segs.append((ai, msgs))
+    return iwa.build(segs)
+
+
 SYN_SIZES = [0, 1, 50, 65535, 65536, 65537, 131071, 131072, 131073, 200000, 1 << 20, 2 << 20]
 
 
@@ -379,6 +422,19 @@ def run_synthetic(spec, rec):
         check_stream(b, rec, f"synthetic:{total}/{nseg}/{int(multi)}/{int(unknown)}/{int(entropy)}",
                      {"part": "synthetic", "total": total, "nseg": nseg, "multi": multi, "unknown": unknown, "entropy": entropy, "seed": spec["seed"], "stream": spec["stream"]},
                      rechunk=rc, rng=rng)
+    # merged segments with patch messages
+    for j in range(12 if spec["tier"] == "quick" else 120):
+        rm = random.Random(f"C05-merge-{spec['seed']}-{spec['stream']}-{j}")  # its own stream: a witness is rebuilt from (seed, stream, j)
+        nseg = rm.choice([1, 2, 5, 20])
+        try:
+            p = synth_merge(rm, nseg)
+        except Exception as e:  # noqa: BLE001
+            rec.build_failure(f"synth_merge: {type(e).__name__}")
+            continue
+        b, _ = iwa.frame(p)
+        rec.count("synthetic_archives")
+        rec.count("synthetic_with_patch_messages")
+        check_stream(b, rec, f"synthetic-merge:{spec['stream']}/{j}", {"part": "synthetic-merge", "seed": spec["seed"], "stream": spec["stream"], "j": j}, rechunk=2, rng=rng)
     # exact sizes around the 64 KiB multiples (only stream 0..2: one multiple each)
     if spec["stream"] < 3:
         k = spec["stream"] + 1
@@ -429,6 +485,11 @@ def replay(case, rec):
                     _replay_cuts(b, case, rec)
                 else:
                     check_stream(b, rec, "replay:" + name, case, rechunk=5, rng=rng)
+    elif part == "synthetic-merge":
+        rm = random.Random(f"C05-merge-{case['seed']}-{case['stream']}-{case['j']}")
+        p = synth_merge(rm, rm.choice([1, 2, 5, 20]))
+        b, _ = iwa.frame(p)
+        check_stream(b, rec, "replay:synthetic-merge", case, rechunk=2, rng=rng)
     elif part == "synthetic-exact":
         p = synth_exact(case["total"], rng, case["nseg"])
         b, _ = iwa.frame(p)
